@@ -10,7 +10,8 @@ META = dict(
            "previous_quadrant = quadrant of the previous angle), previous quadrant in {1,2,3,4} x wrap count m in {-1,0,1} x all four branches of the real "
            "quadrant code, increment |delta| < pi/2, joint angle phi in [0, 2 pi) \\ {pi} by its Weierstrass symbol with the range facts of tan(phi/2) "
            "as axioms; frame-to-rigid-body joint on its manifold, axes {0,1,2}; libm's arctan resolved by solver-checked shifted-angle hints.  One step "
-           "covers histories of any length (induction on the invariant).  Tolerance 1e-9 for the double np.pi against pi.",
+           "covers histories of any length (induction on the invariant).  Rate clause: joint between two rigid bodies (first body free to tumble) and "
+           "frame-to-body, symbolic state on the joint manifold: l_dot = relative rate about the current axis.  Tolerance 1e-9 for the double np.pi against pi.",
     assumptions=["invariant: reported angle = angle0 + 2 pi n + phi_prev with phi_prev in [0, 2 pi) lying in previous_quadrant",
                  "range facts of w = tan(phi/2) per quadrant (true facts about tan, stated as axioms); phi = pi exactly is outside this chart",
                  "PI in (3.14159265358979323, 3.14159265358979324), np.pi its double"],
@@ -20,7 +21,7 @@ META = dict(
 
 def step(h, Qp=1, m=0, axis=2, seed=0):
     from fractions import Fraction
-    rp = lib.RevolutePair(h, seed=seed, axis=axis, first="F", angle0=h.real("angle0"))
+    rp = lib.RevolutePair(h, seed=seed, axis=axis, first="F", angle0=h.angle("angle0"))
     lib.assemble(rp.sysm)
     j = rp.joint
     t, q, u, phi, phid = rp.state()
@@ -77,6 +78,22 @@ def step(h, Qp=1, m=0, axis=2, seed=0):
     h.holds("reset restores the initial tracking state", j.n_full_rotations == 0 and j.previous_quadrant == 1)
 
 
+def rate(h, axis=2, first="RB", seed=0):
+    """reported angle rate = relative angular velocity about the (current) joint axis = d/dt of the reported angle, first body free to tumble"""
+    rp = lib.RevolutePair(h, seed=seed, axis=axis, first=first, angle0=h.real("angle0"))
+    lib.assemble(rp.sysm)
+    j = rp.joint
+    t, q, u, phi, phid = rp.state()
+    ld = j.l_dot(t, q[j.qDOF], u[j.uDOF])
+    h.eq("angle rate = rate of the relative rotation about the axis", ld, phid)
+    if first == "RB":
+        A1 = rp.a.A_IB(t, q[rp.a.qDOF])
+        e_c = (A1 @ rp.A_IJ0)[:, axis]
+        Om1 = A1 @ u[rp.a.uDOF][3:]
+        Om2 = rp.b.A_IB(t, q[rp.b.qDOF]) @ u[rp.b.uDOF][3:]
+        h.eq("angle rate = (Omega2 - Omega1) . current joint axis", ld, (Om2 - Om1) @ e_c)
+
+
 def initial(h, axis=2, seed=0):
     """the tracking state established by assembly is the invariant at the defining configuration (relative angle 0, quadrant 1)"""
     rp = lib.RevolutePair(h, seed=seed, axis=axis, first="F", angle0=h.real("angle0"))
@@ -93,6 +110,8 @@ def cases(tier, seed):
     axes = ((seed % 3,) if tier == "quick" else (0, 1, 2))
     for axis in axes:
         cs.append(Case(f"initial/ax{axis}", initial, dict(axis=axis, seed=seed), timeout=T, sentinel=False))
+        for first in ("RB", "F"):
+            cs.append(Case(f"rate/ax{axis}/{first}", rate, dict(axis=axis, first=first, seed=seed), timeout=T, hard=T * 10))
         for Qp in (1, 2, 3, 4):
             for m in (-1, 0, 1):
                 # a wrap is only possible from the quadrants next to the positive x axis
